@@ -69,7 +69,7 @@ def bech32_encode(
     for char in hrp:
         assert int(char) in range(33, 127), "char in hrp not ascii value in [33, 126]"
     assert len(data) in range(
-        6, bech32_max_len - len(hrp) - len(bech32_separator) - len(witness_version) + 1
+        bech32_max_len - len(hrp) - len(bech32_separator) - len(witness_version) + 1
     ), "addr data exceeds MAX_LEN"
 
     encoded = b""
